@@ -1,9 +1,10 @@
 import ChythonModel.Spec.CycleBasis
+import ChythonModel.Spec.CycleBasisMin
 /-!
 # C06 — witness of the known finding `C06/not-minimum/multi-bridge-core` (informational)
 
-The SSSR heuristic itself is not modelled in Lean (relational clause), so the full statement "the reported ring set
-has minimum total size" is a statement about the implementation's *outputs*. This file records one such output,
+The full statement "the reported ring set has minimum total size" is false of the heuristic (and of its model
+`Model/C06Pid.lean`), so it is a per-run verdict about the implementation's *outputs*. This file records one such output,
 copied from a real run (known_findings/C06.json, re-executed by the probe on every run): for the 13-atom ring
 system in which atoms 31 and 37 are joined by four bridges of 3, 3, 4 and 5 bonds, `mol.sssr` in this numbering is
 `reported`. Lean checks that `reported` is a valid cycle basis of the graph (accepted by the proved checker) and
@@ -29,5 +30,10 @@ theorem reported_is_cycle_basis : checkSssr g reported = true := by decide +kern
 theorem reported_not_minimum :
     ∃ B, checkSssr g B = true ∧ total B < total reported := by
   refine ⟨[[9, 31, 12, 28, 37, 33, 2], [15, 31, 12, 28, 37, 10, 25, 22], [26, 31, 12, 28, 37, 36]], ?_, ?_⟩ <;> decide +kernel
+
+/-- the proved exchange checker (`Props/C06.lean: minimal_wrt_family_iff`, `sssr_minimal_wrt_horton`) rejects the reported
+set: Horton's family contains an 8-ring (e.g. `[15, 31, 12, 28, 37, 10, 25, 22]`) that is not a GF(2) sum of the reported
+rings of size ≤ 8 (the 6- and the 7-ring) -/
+theorem reported_rejected_by_exchange_checker : checkMinimalHorton g reported = false := by decide +kernel
 
 end ChythonModel.Findings.C06
